@@ -79,7 +79,7 @@ def enumerated(ck, b):
     preemptions for 2-3 task programs and for 3 workers"""
     plans = ck.n([('one', 2, 1, 3, 'dict')],
                  [('one', 2, 1, None, 'dict'), ('one', 2, 2, None, 'file'), ('one', 2, 1, 4, 'redis'), ('one', 3, 1, 2, 'dict'),
-                  ('indep2', 2, 1, 2, 'dict'), ('chain2', 2, 1, 2, 'dict'), ('chain2', 2, 2, 2, 'redis'), ('fork', 2, 1, 2, 'dict'),
+                  ('indep2', 2, 1, 2, 'dict'), ('chain2', 2, 1, 2, 'redis'), ('fork', 2, 1, 2, 'dict'),
                   ('chain3', 2, 1, 2, 'dict'), ('join', 2, 1, 1, 'dict')])
     for shape, nw, nr_wait, bound, backend in plans:
         sc0 = {'program': X.small_program(shape), 'backend': backend, 'prefill': [], 'keep_going': False, 'keep_failed': False, 'coarse': True,
